@@ -94,4 +94,7 @@ def replay_ring_order(model, state, ob):
 
 
 UNITS = [u for u in C02.UNITS] + [Unit('_aromatization_Benson[two fused rings]', (SCHEME, '_aromatization_Benson'), u_ring_order, replay_ring_order)]
+# the cis / trans test of a double bond: independent of the direction in which RDKit stores the bond and its reference atoms
+from . import C03stereo
+UNITS += C03stereo.UNITS
 STANDINS = [standins.c03_spellings]
